@@ -180,7 +180,7 @@ def run(res, tier="quick", seed=0, widen=False):
     # ---- magnitudes: a large value that has left the window must leave no trace in the sums that follow
     # (running sums updated by add / subtract keep the rounding error of everything that ever passed through)
     U = Fraction(1, 2**53)
-    OUT = [1e16, -1e16, 1e8 + 0.1, float(2**60), 3e12 + 0.25, -7e15]
+    OUT = [1e16, -1e16, 1e8 + 0.1, float(2**60), 3e12 + 0.25, -7e15, float("inf"), float("-inf")]
     SMALL = [1.0, 2.5, -3.0, 0.5, 0.1, 0.7, 4.0]
     for t in range(200 if tier == "quick" else 2000):
         L = rng.randint(3, 16)
@@ -210,12 +210,25 @@ def run(res, tier="quick", seed=0, widen=False):
             if g < 0 or (amask is not None and not amask[i]):
                 continue
             hist[g].append(vals[i])
-            win = [Fraction(v) for v in hist[g][-window:] if v is not None]
+            raw = [v for v in hist[g][-window:] if v is not None]
+            gi = got[i]
+            infs = {v for v in raw if v in (float("inf"), float("-inf"))}
+            if infs and len(raw) < mp:
+                if not (gi is None or gi != gi):
+                    bad.append((i, gi, None))
+                continue
+            if infs:
+                # an infinite value in the window: the sum is that infinity (NaN if both signs are present) - and finite
+                # again as soon as it has left
+                ok = (gi != gi) if len(infs) == 2 else (gi == next(iter(infs)))
+                if not ok:
+                    bad.append((i, gi, "nan" if len(infs) == 2 else next(iter(infs))))
+                continue
+            win = [Fraction(v) for v in raw]
             if len(win) < mp:
                 want = None
             else:
                 want = sum(win, Fraction(0)) / (len(win) if kind == "mean" else 1)
-            gi = got[i]
             if want is None or gi is None or gi != gi:
                 if (want is None) != (gi is None or gi != gi):
                     bad.append((i, gi, want))
@@ -223,7 +236,7 @@ def run(res, tier="quick", seed=0, widen=False):
             # a correctly rounded sum of the window, with head-room: 8 u * (sum of |x| over the window); the history may
             # contribute second-order terms only
             absw = sum((abs(x) for x in win), Fraction(0)) / (len(win) if kind == "mean" else 1)
-            past = sum((abs(Fraction(v)) for v in hist[g] if v is not None), Fraction(0))
+            past = sum((abs(Fraction(v)) for v in hist[g] if v is not None and abs(v) != float("inf")), Fraction(0))
             tol = 8 * U * absw + 64 * U * U * len(hist[g]) * past
             if abs(Fraction(gi) - want) > tol:
                 bad.append((i, gi, float(want)))
